@@ -205,7 +205,12 @@ func (m *Minifier) apply(vis *minifyVisitor) (madeReplacements bool) {
 	// sort by depth
 	slices.SortStableFunc(replacements, func(a, b *stats) int {
 		if a.depth == b.depth {
-			return strings.Compare(b.enclosingTypeName, a.enclosingTypeName)
+			if c := strings.Compare(b.enclosingTypeName, a.enclosingTypeName); c != 0 {
+				return c
+			}
+			// replacements come out of a map: without a total order the fragment names of
+			// selection sets with equal depth and enclosing type would depend on map iteration
+			return a.items[0].selectionSet - b.items[0].selectionSet
 		}
 		return b.depth - a.depth
 	})
